@@ -4,6 +4,7 @@ import PartituraModel.Model.Voices
 import PartituraModel.Model.KeyEst
 import PartituraModel.Model.Vosa
 import PartituraModel.Model.C17Wrap
+import PartituraModel.Model.C17Float
 
 open Wire Model
 
@@ -45,11 +46,24 @@ def skipArray (l : List (Nat × Int × Nat)) : Array Nat :=
 def pCol : P (String × List Rat) := do let n ← str; let c ← list rat; pure (n, c)
 def pArr : P C17Wrap.NoteArray := do
   let p ← opt (list int); let cols ← list pCol; pure { pitch := p, cols := cols }
+def pKwNat : P (String × Nat) := do let n ← str; let v ← nat; pure (n, v)
+def pKwVal : P (String × C17Wrap.KwVal) := do
+  let n ← str; let t ← tok
+  match t with
+  | "s" => do let v ← str; pure (n, .str v)
+  | "b" => do let v ← bool; pure (n, .bool v)
+  | _ => P.fail
 def pKNote : P KeyEst.KNote := do let p ← int; let d ← rat; pure (p, d)
 
 def handle (ts : List String) : String :=
   match ts with
   | "ps13" :: rest =>
+    -- the spelling as the code computes it: binary64 where the code uses binary64 (`C17.spelling_binary64`: the same
+    -- as `Ps13.ps13` on MIDI pitches); "ps13x" is the exact model
+    orErr <| (run (do let a ← nat; let b ← nat; let rows ← list pRow; pure (a, b, rows)) rest).bind
+      fun (a, b, rows) => (C17Float.ps13F a b rows).map fun sp =>
+        fmtList (fun x => fmtSpelling x.2) ((rows.zip sp).mergeSort spLe)
+  | "ps13x" :: rest =>
     orErr <| (run (do let a ← nat; let b ← nat; let rows ← list pRow; pure (a, b, rows)) rest).bind
       fun (a, b, rows) => (Ps13.ps13 a b rows).map fun sp =>
         fmtList (fun x => fmtSpelling x.2) ((rows.zip sp).mergeSort spLe)
@@ -68,6 +82,26 @@ def handle (ts : List String) : String :=
       let mp := Ps13.morpheticPitch c m
       let s := Ps13.p2pn c mp
       fmtTuple [fmtInt mp, s.1, fmtInt s.2.1, fmtInt s.2.2]
+  | "cmf" :: rest =>
+    orErr <| (run (do let c ← int; let m ← int; pure (c, m)) rest).map fun (c, m) =>
+      let mp := C17Float.morpheticPitchF c m
+      let s := C17Float.p2pnF c mp
+      fmtTuple [fmtInt mp, s.1, fmtInt s.2.1, fmtInt s.2.2]
+  | "fl" :: rest =>
+    orErr <| (run rat rest).map fun q => fmtRat (C17Float.fl q).toRat
+  | "fop" :: rest =>
+    orErr <| (run (do let op ← tok; let a ← rat; let b ← rat; pure (op, a, b)) rest).bind fun (op, a, b) =>
+      let x := C17Float.fl a
+      let y := C17Float.fl b
+      match op with
+      | "add" => some (fmtRat (C17Float.fadd x y).toRat)
+      | "sub" => some (fmtRat (C17Float.fsub x y).toRat)
+      | "div" => if b = 0 then none else some (fmtRat (C17Float.fdiv x y).toRat)
+      | "floor" => some (fmtInt x.floor)
+      | "lt" => some (if C17Float.Dy.lt x y then "1" else "0")
+      | _ => none
+  | "lg" :: rest =>
+    orErr <| (run nat rest).bind fun n => if n = 0 then none else some (fmtNat (C17Float.lg n))
   | "p2pn" :: rest =>
     orErr <| (run (do let c ← int; let m ← int; pure (c, m)) rest).map fun (c, mp) =>
       fmtSpelling (Ps13.p2pn c mp)
@@ -87,6 +121,10 @@ def handle (ts : List String) : String :=
     orErr <| (run (do let mono ← bool; let notes ← list pVNoteOff; pure (mono, notes)) rest).bind
       fun (mono, notes) =>
         (Vosa.estimateVoicesWith (notes.map (·.2)) mono (notes.map (·.1))).map (fmtList fmtInt)
+  | "voicesxx" :: rest =>
+    -- wrapper and search with exact sums as offsets (`Vosa.estimateVoicesExact`, the function of `voices_total_exact`)
+    orErr <| (run (do let mono ← bool; let notes ← list pVNote; pure (mono, notes)) rest).bind
+      fun (mono, notes) => (Vosa.estimateVoicesExact mono notes).map (fmtList fmtInt)
   | "cost" :: rest =>
     orErr <| (run (do let a ← list pCostNote; let b ← list pCostNote; pure (a, b)) rest).bind
       fun (a, b) => (Vosa.pairwiseCost (skipArray (a ++ b)) (a.map costNote) (b.map costNote)).map
@@ -111,11 +149,27 @@ def handle (ts : List String) : String :=
       fun (nm, a) => C17Wrap.estimateKeyArr nm a
   | "psarr" :: rest =>
     orErr <| (run pArr rest).bind fun a => (C17Wrap.spellingRows a).bind fun rows =>
-      (Ps13.ps13Default rows).map fun sp => fmtList (fun x => fmtSpelling x.2) ((rows.zip sp).mergeSort spLe)
+      (C17Float.ps13F Gen.PS13_K_PRE Gen.PS13_K_POST rows).map fun sp =>
+        fmtList (fun x => fmtSpelling x.2) ((rows.zip sp).mergeSort spLe)
+  | "psopt" :: rest =>
+    orErr <| (run (do let m ← opt str; let kw ← list pKwNat; let a ← pArr; pure (m, kw, a)) rest).bind
+      fun (m, kw, a) => (C17Wrap.estimateSpellingOpts m kw a).bind fun sp => (C17Wrap.spellingRows a).map fun rows =>
+        fmtList (fun x => fmtSpelling x.2) ((rows.zip sp).mergeSort spLe)
+  | "keyopt" :: rest =>
+    orErr <| (run (do let m ← opt str; let n ← nat; let kw ← list pKwVal; let a ← pArr; pure (m, n, kw, a)) rest).bind
+      fun (m, n, kw, a) => (C17Wrap.estimateKeyOpts m n kw a).map fun r =>
+        match r with
+        | .one nm => nm
+        | .ranking l => fmtList id l
   | "profname" :: rest =>
     orErr <| (run (opt str) rest).bind fun nm => (C17Wrap.estimateKeySet nm).map C17Wrap.setName
   | "kskid" :: rest =>
     orErr <| (run str rest).bind fun nm => (C17Wrap.ksKidSet nm).map C17Wrap.setName
+  | "corrs" :: rest =>
+    orErr <| (run (do let ps ← parseProfileSet; let notes ← list pKNote; pure (ps, notes)) rest).map
+      fun (ps, notes) => match C17Wrap.corrSquares ps notes with
+        | none => fmtList id (List.replicate 24 "nan")
+        | some l => fmtList fmtRat l
   | "keysorted" :: rest =>
     orErr <| (run (do let ps ← parseProfileSet; let notes ← list pKNote; pure (ps, notes)) rest).bind
       fun (ps, notes) => some (fmtList id (C17Wrap.sortedKeys ps notes))
